@@ -13,6 +13,9 @@ import Adsg.Model.Enc
 import Adsg.Model.Cache
 import Adsg.Model.Select
 import Adsg.Model.ConnGraph
+import Adsg.Model.Identity
+import Adsg.Model.TimeLimiter
+import Adsg.Model.Sup
 open Lean Adsg
 
 namespace Drv
@@ -337,6 +340,58 @@ def opConnGraph (j : Json) : R Json := do
       ("tgt", jList (fun c : CNode => Json.mkObj [("deg", match c.deg with | .list ds => Json.mkObj [("list", jList jNat ds)] | .atLeast m => Json.mkObj [("min", jNat m)]), ("rep", Json.bool c.rep)]) (baseSettings k).tgt)])
   return Json.mkObj [("archs", Json.arr out.toArray), ("base", Json.arr base.toArray)]
 
+/-! ### structural identity -/
+
+/-- canonical forms come as lists of strings; intern them as naturals and compare with `eqG`. -/
+def opCanonEq (j : Json) : R Json := do
+  let rd := fun (c : Json) => do
+    return (← listOf str (← field c "nodes"), ← listOf str (← field c "edges"), ← listOf str (← field c "start"),
+            ← nat (← field c "n_cons"))
+  let a ← rd (← field j "a")
+  let b ← rd (← field j "b")
+  let univ := (a.1 ++ a.2.1 ++ a.2.2.1 ++ b.1 ++ b.2.1 ++ b.2.2.1).eraseDups
+  let idx := fun (s : String) => (univ.findIdx? (· == s)).getD 0
+  let mk := fun (c : List String × List String × List String × Nat) =>
+    ({ nodes := c.1.map idx, edges := c.2.1.map (fun e => (idx e, 0, 0)), start := c.2.2.1.map idx,
+       cons := List.range c.2.2.2 } : GS)
+  return Json.bool (eqG (mk a) (mk b))
+
+/-! ### time limiter -/
+
+def tlObs (j : Json) : R Adsg.TL.Obs := do
+  match ← str j with
+  | "f_start" => return .fStart
+  | "f_end_ok" => return .fEnd true
+  | "f_end_err" => return .fEnd false
+  | "f_killed" => return .fKilled
+  | "ret" => return .ret .ret
+  | "raise" => return .ret .raise
+  | "timeout" => return .ret .timeout
+  | s => throw s!"bad event {s}"
+
+def opTlAccepts (j : Json) : R Json := do
+  let traces ← listOf (listOf tlObs) (← field j "traces")
+  return jList (fun t => Json.bool (Adsg.TL.obsAccepts t)) traces
+
+/-! ### supplementary graphs -/
+
+def supMapping (j : Json) : R SupMapping := do
+  match ← str (← field j "kind") with
+  | "opt" => return .opt { srcChoice := ← nat (← field j "src_choice"),
+                           table := ← listOf (pairOf (optOf nat) nat) (← field j "table") }
+  | "exist" => return .exist { entries := ← listOf (pairOf nat nat) (← field j "entries"), dflt := ← nat (← field j "default") }
+  | s => throw s!"bad mapping kind {s}"
+
+def opSupResolve (j : Json) : R Json := do
+  let sup ← dsg (← field j "sup")
+  let maps ← listOf (pairOf nat supMapping) (← field j "maps")
+  let spec : SupSpec := { sup := sup, maps := maps }
+  let srcs ← listOf (fun e => do return (← listOf nat (← field e "nodes"), ← listOf (optOf nat) (← field e "row"))) (← field j "sources")
+  let outs := srcs.map (fun (X, r) =>
+    Json.mkObj [("assign", jList (jOpt jNat) (supAssign spec X r)),
+                ("result", jOpt (fun N => jList jNat (sortNat N)) (resolve spec X r))])
+  return Json.mkObj [("init_ok", Json.bool (initOK spec)), ("results", Json.arr outs.toArray)]
+
 def dispatch (op : String) (j : Json) : R Json :=
   match op with
   | "ping" => return Json.str "pong"
@@ -351,6 +406,9 @@ def dispatch (op : String) (j : Json) : R Json :=
   | "eager" => opEager j
   | "key_eq" => opKeyEq j
   | "conn_graph" => opConnGraph j
+  | "canon_eq" => opCanonEq j
+  | "tl_accepts" => opTlAccepts j
+  | "sup_resolve" => opSupResolve j
   | "get_best" => opGetBest j
   | "correct_value" => opCorrect j
   | "decode_dv" => opDecodeDV j
